@@ -53,9 +53,23 @@ WithRetries(r, k) ==
   ELSE LET c == Call(r.s, FALSE) IN
        IF (c.re.exc = "") # E.re.retry[k] THEN Mk(r.s, [r.re EXCEPT !.exc = "retry-mismatch"])      \* accepted iff the transport is up
        ELSE WithRetries(Mk(c.s, [r.re EXCEPT !.out = @ \o c.re.out]), k + 1)
-Accept(r0) == LET r == WithRetries(r0, 1) IN
+\* an in-process transport whose close() tells the session at once that the transport is gone: the step that closes the
+\* transport and the loss are one step (callbacks in order; listener events may interleave differently: compared as bags)
+WithSyncLost(r) ==
+  IF ~E.synclost THEN r
+  ELSE IF r.re.closes = 0 THEN Mk(r.s, [r.re EXCEPT !.exc = "unexpected-close"])
+  ELSE LET x == Lost(r.s) IN
+       Mk(x.s, [r.re EXCEPT !.out = @ \o x.re.out, !.cbs = @ \o x.re.cbs, !.evs = @ \o x.re.evs, !.done = @ \o x.re.done])
+Bag(q) == [v \in ToSet(q) |-> Cardinality({i \in 1..Len(q) : q[i] = v})]
+Matches(r) == /\ StateMatches(r.s, E.obs) /\ ReMatches([r.re EXCEPT !.evs = IF E.synclost THEN E.re.evs ELSE @], E.re)
+              /\ (E.synclost => Bag(r.re.evs) = Bag(E.re.evs))
+\* (errbacks - and the calls re-issued from them - run either in the step itself, while the transport is still up, or in the
+\* loss that a synchronous close appends to it, never in both: whichever order explains the log)
+Accept(r0) == LET rA == WithSyncLost(WithRetries(r0, 1))
+                  rB == WithRetries(WithSyncLost(r0), 1)
+                  r == IF Matches(rA) THEN rA ELSE rB IN
              /\ s' = r.s /\ re' = r.re
-             /\ StateMatches(r.s, E.obs) /\ ReMatches(r.re, E.re)
+             /\ Matches(r)
              /\ E.faithful /\ E.valuesOk /\ E.argsOk
 
 Msg == E.m
